@@ -426,6 +426,32 @@ func runCtor(c Ctor) (vk.Outcome, error) {
 		want = append(want, c.Items...)
 		sts = append(sts, stream.FromIterator[int](sk.NewRecIter(c.Items)))
 	}
+	// stream constructors under an already-cancelled context: the call fails with that context's error and
+	// costs nothing (the items are still all there afterwards); stream.Error reports its error forever.
+	if c.Kind == "Chan" || c.Kind == "FromIterator" {
+		cctx, cancel := context.WithCancel(context.Background())
+		cancel()
+		var s stream.Stream[int]
+		if c.Kind == "Chan" {
+			s = stream.Chan[int](closedChan(c.Items))
+		} else {
+			s = stream.FromIterator[int](sk.NewRecIter(c.Items))
+		}
+		if _, err := s.Next(cctx); err == nil && c.Kind == "FromIterator" {
+			return out, vk.Violf("ctx-ignored", "stream.FromIterator: Next with a cancelled context returned an item")
+		}
+		if c.Kind == "FromIterator" {
+			sts = append(sts, s) // nothing was consumed by the failed call
+		}
+		E := sk.NewSentinel("E")
+		es := stream.Error[int](E)
+		for i := 0; i < 3; i++ {
+			if _, err := es.Next(bg); err != E {
+				return out, vk.Violf("wrong-output", "stream.Error: Next #%d returned %v", i, err)
+			}
+		}
+		es.Close()
+	}
 	for _, it := range its {
 		got, err := drainIter(it, c.Extra)
 		if err != nil {
